@@ -214,7 +214,7 @@ func runRound(f *failer, r Round) {
 		}
 		named = append(named, e.Name)
 		tasks = append(tasks, tasksFor(e.Name, e.Type, fl, true)...)
-		if !e.PtrRecvByValue && e.Methods != "mt-val" {
+		if !e.PtrRecvByValue {
 			rtT := runtimeType(e.Type, r.Index*r.NShards+r.Shard, k)
 			tasks = append(tasks, tasksFor("rt:"+rtT.String(), rtT, fl, true)...)
 		}
